@@ -3,5 +3,5 @@ EXTENDS PlanarGen, Json
 (* emitted once per complete behaviour in simulation mode, and for every state in the exhaustive dump *)
 J == [kind |-> kind, n |-> G.n, e |-> SortedSeq(CodeOf(G)), hist |-> hist]
 EmitFull == Len(hist) < MaxOps \/ PrintT(<<"B", ToJson(J)>>)
-EmitAll  == phase = 1 \/ PrintT(<<"B", ToJson(J)>>)
+EmitAll  == PrintT(<<"B", ToJson(J)>>)
 =============================================================================
